@@ -271,3 +271,35 @@ Proof.
   intros A. apply docModified_false_inv in A. destruct A as (data & S & A).
   exists data. split; [exact S|]. now apply p1_unmodified_signature_over_byte_range.
 Qed.
+
+(* ---------- several signers ---------- *)
+Lemma processed_all {A} auth (l : list A) : processedSigners auth true l = l.
+Proof. unfold processedSigners. rewrite andb_false_r. reflexivity. Qed.
+
+Lemma all_valid_iff_every_signer_verified auth signers :
+  p7StatusOf auth true signers = StValid <->
+  signers <> [] /\ forall s, In s signers -> signerComplete s = true.
+Proof.
+  unfold p7StatusOf. rewrite processed_all. split.
+  - destruct (existsb signerFails signers) eqn:E; [discriminate|].
+    destruct (negb (isNil signers) && forallb signerComplete signers) eqn:F; [|discriminate].
+    intros _. apply andb_true_iff in F. destruct F as [F1 F2]. split.
+    + destruct signers; [discriminate|discriminate].
+    + now apply forallb_forall.
+  - intros [Hne Hall].
+    assert (F : forallb signerComplete signers = true) by now apply forallb_forall.
+    assert (E : existsb signerFails signers = false).
+    { destruct (existsb signerFails signers) eqn:E; [|reflexivity].
+      apply existsb_exists in E. destruct E as (s & Hin & Hf).
+      specialize (Hall s Hin). unfold signerComplete in Hall. unfold signerFails in Hf.
+      destruct (sigAuth s), (digestOK s); simpl in *; discriminate. }
+    rewrite E, F. destruct signers; [contradiction|reflexivity].
+Qed.
+
+Lemma all_tampered_signer_invalid auth signers s :
+  In s signers -> signerFails s = true -> p7StatusOf auth true signers = StInvalid.
+Proof.
+  intros Hin Hf. unfold p7StatusOf. rewrite processed_all.
+  assert (E : existsb signerFails signers = true) by (apply existsb_exists; exists s; now split).
+  now rewrite E.
+Qed.
